@@ -117,4 +117,624 @@ theorem run_plain_skipping (cl : Client) (hk : 0 < cl.skipDepth) (body : List Op
 def bundleOf (lat : Option Rat) (ms : List Msg) : List Packet :=
   if ms.isEmpty then [] else [.bundle lat ms]
 
+/-! ### control values: `embed` produces one grammatical value -/
+
+theorem pairsOk_atom_inArr {a : Arg} (h : a.isValAtom = true) (d : Nat) (r : List Arg) :
+    pairsOk (some (d + 1)) (a :: r) = pairsOk (some (d + 1)) r := by
+  cases a with
+  | atom x => simp [pairsOk, h]
+  | «open» => simp [Arg.isValAtom] at h
+  | close => simp [Arg.isValAtom] at h
+  | msg m => simp [Arg.isValAtom] at h
+
+mutual
+theorem embed_inArr (c : Core) : ∀ (v : Val) (as : List Arg), Val.isValue c v = true → embed c v = some as →
+    ∀ (d : Nat) (r : List Arg), pairsOk (some (d + 1)) (as ++ r) = pairsOk (some (d + 1)) r
+  | .list l, as, hv, he, d, r => by
+    simp only [embed, bind, Option.bind] at he
+    cases hl : embedL c l with
+    | none => simp [hl] at he
+    | some x =>
+      simp only [hl, pure, Option.some.injEq] at he
+      subst he
+      have := embedL_inArr c l x (by simpa [Val.isValue] using hv) hl (d + 1) (Arg.close :: r)
+      simp only [List.cons_append, List.append_assoc, List.nil_append]
+      rw [show pairsOk (some (d + 1)) (Arg.open :: (x ++ Arg.close :: r)) = pairsOk (some (d + 2)) (x ++ Arg.close :: r) by
+        simp [pairsOk]]
+      rw [this]
+      simp [pairsOk]
+  | .dict l, as, hv, he, d, r => by simp [Val.isValue] at hv
+  | .int i, as, hv, he, d, r => by
+    simp only [embed, Option.some.injEq] at he; subst he
+    exact pairsOk_atom_inArr rfl d r
+  | .flt q, as, hv, he, d, r => by
+    simp only [embed, Option.some.injEq] at he; subst he
+    exact pairsOk_atom_inArr rfl d r
+  | .str s, as, hv, he, d, r => by simp [Val.isValue] at hv
+  | .none, as, hv, he, d, r => by simp [Val.isValue] at hv
+  | .tt, as, hv, he, d, r => by simp [Val.isValue] at hv
+  | .ff, as, hv, he, d, r => by simp [Val.isValue] at hv
+  | .bus h, as, hv, he, d, r => by
+    simp only [embed, bind, Option.bind] at he
+    cases hb : c.buses[h]? with
+    | none => simp [hb] at he
+    | some b =>
+      cases hi : b.index with
+      | none => simp [hb, hi] at he
+      | some i =>
+        simp only [hb, hi, pure, Option.some.injEq] at he; subst he
+        exact pairsOk_atom_inArr rfl d r
+  | .buf h, as, hv, he, d, r => by
+    simp only [embed, bind, Option.bind] at he
+    cases hb : c.bufs[h]? with
+    | none => simp [hb] at he
+    | some b =>
+      cases hi : b.bufnum with
+      | none => simp [hb, hi] at he
+      | some i =>
+        simp only [hb, hi, pure, Option.some.injEq] at he; subst he
+        exact pairsOk_atom_inArr rfl d r
+  | .node h, as, hv, he, d, r => by
+    simp only [embed, bind, Option.bind] at he
+    cases hb : c.nodes[h]? with
+    | none => simp [hb] at he
+    | some b =>
+      simp only [hb, pure, Option.some.injEq] at he; subst he
+      exact pairsOk_atom_inArr rfl d r
+  | .msym h, as, hv, he, d, r => by
+    simp only [embed, bind, Option.bind] at he
+    cases hb : c.buses[h]? with
+    | none => simp [hb] at he
+    | some b =>
+      cases hi : b.index with
+      | none => simp [hb, hi] at he
+      | some i =>
+        simp only [hb, hi, pure, Option.some.injEq] at he; subst he
+        have : (0 : Int) ≤ i := by simpa [Val.isValue, hb, hi] using hv
+        exact pairsOk_atom_inArr (by simp [Arg.isValAtom, this]) d r
+theorem embedL_inArr (c : Core) : ∀ (l : List Val) (as : List Arg), Val.allValues c l = true →
+    embedL c l = some as →
+    ∀ (d : Nat) (r : List Arg), pairsOk (some (d + 1)) (as ++ r) = pairsOk (some (d + 1)) r
+  | [], as, hv, he, d, r => by
+    simp only [embedL, Option.some.injEq] at he; subst he; rfl
+  | v :: vs, as, hv, he, d, r => by
+    simp only [embedL, bind, Option.bind] at he
+    cases h1 : embed c v with
+    | none => simp [h1] at he
+    | some a =>
+      cases h2 : embedL c vs with
+      | none => simp [h1, h2] at he
+      | some b =>
+        simp only [h1, h2, pure, Option.some.injEq] at he; subst he
+        simp only [Val.allValues, Bool.and_eq_true] at hv
+        rw [List.append_assoc, embed_inArr c v a hv.1 h1 d (b ++ r), embedL_inArr c vs b hv.2 h2 d r]
+end
+
+theorem embed_scalar_or_array (c : Core) (v : Val) (as : List Arg) (hv : Val.isValue c v = true)
+    (he : embed c v = some as) :
+    (∃ a, as = [a] ∧ a.isValAtom = true) ∨
+    (∃ l x, v = .list l ∧ Val.allValues c l = true ∧ embedL c l = some x ∧ as = Arg.open :: x ++ [Arg.close]) := by
+  cases v with
+  | list l =>
+    right
+    simp only [embed, bind, Option.bind] at he
+    cases hl : embedL c l with
+    | none => simp [hl] at he
+    | some x =>
+      simp only [hl, pure, Option.some.injEq] at he
+      exact ⟨l, x, rfl, by simpa [Val.isValue] using hv, hl, he.symm⟩
+  | dict l => simp [Val.isValue] at hv
+  | int i => left; simp only [embed, Option.some.injEq] at he; exact ⟨_, he.symm, rfl⟩
+  | flt q => left; simp only [embed, Option.some.injEq] at he; exact ⟨_, he.symm, rfl⟩
+  | str s => simp [Val.isValue] at hv
+  | none => simp [Val.isValue] at hv
+  | tt => simp [Val.isValue] at hv
+  | ff => simp [Val.isValue] at hv
+  | bus h =>
+    left
+    simp only [embed, bind, Option.bind] at he
+    cases hb : c.buses[h]? with
+    | none => simp [hb] at he
+    | some b =>
+      cases hi : b.index with
+      | none => simp [hb, hi] at he
+      | some i => simp only [hb, hi, pure, Option.some.injEq] at he; exact ⟨_, he.symm, rfl⟩
+  | buf h =>
+    left
+    simp only [embed, bind, Option.bind] at he
+    cases hb : c.bufs[h]? with
+    | none => simp [hb] at he
+    | some b =>
+      cases hi : b.bufnum with
+      | none => simp [hb, hi] at he
+      | some i => simp only [hb, hi, pure, Option.some.injEq] at he; exact ⟨_, he.symm, rfl⟩
+  | node h =>
+    left
+    simp only [embed, bind, Option.bind] at he
+    cases hb : c.nodes[h]? with
+    | none => simp [hb] at he
+    | some b => simp only [hb, pure, Option.some.injEq] at he; exact ⟨_, he.symm, rfl⟩
+  | msym h =>
+    left
+    simp only [embed, bind, Option.bind] at he
+    cases hb : c.buses[h]? with
+    | none => simp [hb] at he
+    | some b =>
+      cases hi : b.index with
+      | none => simp [hb, hi] at he
+      | some i =>
+        simp only [hb, hi, pure, Option.some.injEq] at he
+        have : (0 : Int) ≤ i := by simpa [Val.isValue, hb, hi] using hv
+        exact ⟨_, he.symm, by simp [Arg.isValAtom, this]⟩
+
+/-- a value in value position completes a `(control, value)` pair -/
+theorem embed_value_top (c : Core) (v : Val) (as : List Arg) (hv : Val.isValue c v = true)
+    (he : embed c v = some as) (r : List Arg) :
+    pairsOk (some 0) (as ++ r) = pairsOk none r := by
+  rcases embed_scalar_or_array c v as hv he with ⟨a, rfl, ha⟩ | ⟨l, x, rfl, hl, hx, rfl⟩
+  · simp [pairsOk, ha]
+  · have := embedL_inArr c l x hl hx 0 (Arg.close :: r)
+    simp only [List.cons_append, List.append_assoc, List.nil_append, pairsOk]
+    simp only [Arg.isValAtom, Bool.false_eq_true, if_false]
+    rw [show (0 : Nat) + 1 = 1 from rfl] at this
+    rw [this]
+    simp [pairsOk]
+
+/-- control names: `embed` of an int or a string is that scalar, a control token -/
+theorem embed_ctl (c : Core) (k : Val) (hk : k.isCtlLike = true) :
+    ∃ a, embed c k = some [a] ∧ a.isCtl = true := by
+  cases k <;> simp [Val.isCtlLike] at hk
+  · exact ⟨_, rfl, rfl⟩
+  · exact ⟨_, rfl, rfl⟩
+
+/-- MAIN lemma of the argument conversion: a well-formed list of (control, value) pairs — values
+    nested to any depth — flattens to a grammatical `N * (control, value)` argument list -/
+theorem embedL_pairs (c : Core) : ∀ (l : List Val) (as : List Arg), wfPairs c l = true →
+    embedL c l = some as → pairsOk none as = true
+  | [], as, _, he => by simp only [embedL, Option.some.injEq] at he; subst he; rfl
+  | [_], _, hw, _ => by simp [wfPairs] at hw
+  | k :: v :: rest, as, hw, he => by
+    simp only [wfPairs, Bool.and_eq_true] at hw
+    obtain ⟨⟨hk, hv⟩, hrest⟩ := hw
+    obtain ⟨a, hka, hac⟩ := embed_ctl c k hk
+    simp only [embedL, bind, Option.bind, hka] at he
+    cases h1 : embed c v with
+    | none => simp [h1] at he
+    | some x =>
+      cases h2 : embedL c rest with
+      | none => simp [h1, h2] at he
+      | some y =>
+        simp only [h1, h2, pure, Option.some.injEq] at he
+        subst he
+        simp only [List.singleton_append, pairsOk, hac, Bool.true_and]
+        rw [embed_value_top c v x hv h1 y]
+        exact embedL_pairs c rest y hrest h2
+
+
+/-! ### flat argument lists (`_as_control_input` element-wise) -/
+
+theorem ctlInputs_nil (c : Core) : ctlInputs c [] = some [] := rfl
+
+theorem ctlInputs_cons {c : Core} {v : Val} {vs : List Val} {as : List Arg}
+    (h : ctlInputs c (v :: vs) = some as) :
+    ∃ a r, atomArg c v = some a ∧ ctlInputs c vs = some r ∧ as = a :: r := by
+  simp only [ctlInputs, List.mapM_cons, bind, Option.bind] at h
+  cases h1 : atomArg c v with
+  | none => simp [h1] at h
+  | some a =>
+    cases h2 : List.mapM (atomArg c) vs with
+    | none => simp [h1, h2] at h
+    | some r =>
+      simp only [h1, h2, pure, Option.some.injEq] at h
+      exact ⟨a, r, rfl, h2, h.symm⟩
+
+theorem atomArg_intLike {c : Core} {v : Val} {a : Arg} (hv : v.isIntLike c = true)
+    (h : atomArg c v = some a) : a.isInt = true := by
+  cases v <;> simp [Val.isIntLike] at hv <;> simp only [atomArg, bind, Option.bind] at h
+  · simp only [Option.some.injEq] at h; subst h; rfl
+  · cases hb : c.buses[‹Nat›]? with
+    | none => simp [hb] at h
+    | some b => cases hi : b.index with
+      | none => simp [hb, hi] at h
+      | some i => simp only [hb, hi, pure, Option.some.injEq] at h; subst h; rfl
+  · cases hb : c.bufs[‹Nat›]? with
+    | none => simp [hb] at h
+    | some b => cases hi : b.bufnum with
+      | none => simp [hb, hi] at h
+      | some i => simp only [hb, hi, pure, Option.some.injEq] at h; subst h; rfl
+  · cases hb : c.nodes[‹Nat›]? with
+    | none => simp [hb] at h
+    | some b => simp only [hb, pure, Option.some.injEq] at h; subst h; rfl
+
+theorem Arg.isInt_isNum {a : Arg} (h : a.isInt = true) : a.isNum = true := by
+  cases a with
+  | atom x => cases x <;> simp [Arg.isInt] at h <;> rfl
+  | _ => simp [Arg.isInt] at h
+
+theorem Arg.isInt_isCtl {a : Arg} (h : a.isInt = true) : a.isCtl = true := by
+  cases a with
+  | atom x => cases x <;> simp [Arg.isInt] at h <;> rfl
+  | _ => simp [Arg.isInt] at h
+
+theorem Arg.isInt_isFlag {a : Arg} (h : a.isInt = true) : a.isFlag = true := by
+  cases a with
+  | atom x => cases x <;> simp [Arg.isInt] at h <;> rfl
+  | _ => simp [Arg.isInt] at h
+
+theorem atomArg_numLike {c : Core} {v : Val} {a : Arg} (hv : v.isNumLike c = true)
+    (h : atomArg c v = some a) : a.isNum = true := by
+  by_cases hf : ∃ q, v = .flt q
+  · obtain ⟨q, rfl⟩ := hf
+    simp only [atomArg, Option.some.injEq] at h; subst h; rfl
+  · have : v.isIntLike c = true := by
+      cases v <;> simp_all [Val.isNumLike]
+    exact Arg.isInt_isNum (atomArg_intLike this h)
+
+theorem atomArg_ctlLike {c : Core} {v : Val} {a : Arg} (hv : v.isCtlLike = true)
+    (h : atomArg c v = some a) : a.isCtl = true := by
+  cases v <;> simp [Val.isCtlLike] at hv <;> simp only [atomArg, Option.some.injEq] at h <;> subst h <;> rfl
+
+/-- class preservation lifted to repetitions -/
+theorem rep1_of_vrep1 {c : Core} {p : Val → Bool} {P : Arg → Bool}
+    (hp : ∀ v a, p v = true → atomArg c v = some a → P a = true) :
+    ∀ (vs : List Val) (as : List Arg), vrep1 p vs = true → ctlInputs c vs = some as → rep1 P as = true
+  | [], as, _, h => by simp only [ctlInputs_nil, Option.some.injEq] at h; subst h; rfl
+  | v :: vs, as, hw, h => by
+    obtain ⟨a, r, h1, h2, rfl⟩ := ctlInputs_cons h
+    simp only [vrep1, Bool.and_eq_true] at hw
+    simp only [rep1, hp v a hw.1 h1, Bool.true_and]
+    exact rep1_of_vrep1 hp vs r hw.2 h2
+
+theorem rep2_of_vrep2 {c : Core} {p q : Val → Bool} {P Q : Arg → Bool}
+    (hp : ∀ v a, p v = true → atomArg c v = some a → P a = true)
+    (hq : ∀ v a, q v = true → atomArg c v = some a → Q a = true) :
+    ∀ (vs : List Val) (as : List Arg), vrep2 p q vs = true → ctlInputs c vs = some as → rep2 P Q as = true
+  | [], as, _, h => by simp only [ctlInputs_nil, Option.some.injEq] at h; subst h; rfl
+  | [_], _, hw, _ => by simp [vrep2] at hw
+  | v :: w :: vs, as, hw, h => by
+    obtain ⟨a, r, h1, h2, rfl⟩ := ctlInputs_cons h
+    obtain ⟨b, r', h3, h4, rfl⟩ := ctlInputs_cons h2
+    simp only [vrep2, Bool.and_eq_true] at hw
+    simp only [rep2, hp v a hw.1.1 h1, hq w b hw.1.2 h3, Bool.true_and]
+    exact rep2_of_vrep2 hp hq vs r' hw.2 h4
+
+theorem rep3_of_vrep3 {c : Core} {p q s : Val → Bool} {P Q S : Arg → Bool}
+    (hp : ∀ v a, p v = true → atomArg c v = some a → P a = true)
+    (hq : ∀ v a, q v = true → atomArg c v = some a → Q a = true)
+    (hs : ∀ v a, s v = true → atomArg c v = some a → S a = true) :
+    ∀ (vs : List Val) (as : List Arg), vrep3 p q s vs = true → ctlInputs c vs = some as →
+      rep3 P Q S as = true
+  | [], as, _, h => by simp only [ctlInputs_nil, Option.some.injEq] at h; subst h; rfl
+  | [_], _, hw, _ => by simp [vrep3] at hw
+  | [_, _], _, hw, _ => by simp [vrep3] at hw
+  | v :: w :: x :: vs, as, hw, h => by
+    obtain ⟨a, r, h1, h2, rfl⟩ := ctlInputs_cons h
+    obtain ⟨b, r', h3, h4, rfl⟩ := ctlInputs_cons h2
+    obtain ⟨d, r'', h5, h6, rfl⟩ := ctlInputs_cons h4
+    simp only [vrep3, Bool.and_eq_true] at hw
+    simp only [rep3, hp v a hw.1.1.1 h1, hq w b hw.1.1.2 h3, hs x d hw.1.2 h5, Bool.true_and]
+    exact rep3_of_vrep3 hp hq hs vs r'' hw.2 h6
+
+/-! ### `(control, bus)` pairs of mapn / mapan -/
+
+theorem mnBus_ok {c : Core} {b : Val} {x : Arg × Arg} (hb : b.isMnBus c = true) (h : mnBus c b = some x) :
+    x.1.isInt = true ∧ x.2.isInt = true := by
+  cases b <;> simp [Val.isMnBus] at hb
+  · simp only [mnBus, Option.some.injEq] at h; subst h; exact ⟨rfl, rfl⟩
+  · rename_i hh
+    simp only [mnBus, bind, Option.bind] at h
+    cases hbus : c.buses[hh]? with
+    | none => simp [hbus] at h
+    | some bo =>
+      cases hi : bo.index with
+      | none => simp [hbus, hi] at h
+      | some i =>
+        cases hch : bo.channels with
+        | none => simp [hbus, hi, hch] at h
+        | some ch => simp only [hbus, hi, hch, pure, Option.some.injEq] at h; subst h; exact ⟨rfl, rfl⟩
+
+theorem mnArgs_ok (c : Core) : ∀ (args : List Val) (as : List Arg), wfMn c args = true →
+    mnArgs c args = some as → rep3 Arg.isCtl Arg.isInt Arg.isInt as = true
+  | [], as, _, h => by simp only [mnArgs, Option.some.injEq] at h; subst h; rfl
+  | [_], as, _, h => by simp only [mnArgs, Option.some.injEq] at h; subst h; rfl
+  | k :: b :: r, as, hw, h => by
+    simp only [wfMn, Bool.and_eq_true] at hw
+    obtain ⟨⟨hk, hb⟩, hr⟩ := hw
+    simp only [mnArgs, bind, Option.bind] at h
+    cases hc : atomArg c k with
+    | none => simp [hc] at h
+    | some ctl =>
+      cases hx : mnBus c b with
+      | none => simp [hc, hx] at h
+      | some x =>
+        cases hrest : mnArgs c r with
+        | none => simp [hc, hx, hrest] at h
+        | some rest =>
+          simp only [hc, hx, hrest, pure, Option.some.injEq] at h; subst h
+          have := mnBus_ok hb hx
+          simp only [rep3, atomArg_ctlLike hk hc, this.1, this.2, Bool.true_and]
+          exact mnArgs_ok c r rest hr hrest
+
+/-! ### counted groups of setn -/
+
+theorem counted_some0 (h : Arg → Bool) (l : List Arg) : countedOk h (some 0) l = countedOk h none l := by
+  cases l with
+  | nil => rfl
+  | cons a r =>
+    cases r with
+    | nil => simp [countedOk]
+    | cons b r' => cases b with
+      | atom x => cases x <;> simp [countedOk]
+      | _ => simp [countedOk]
+
+theorem counted_nums (h : Arg → Bool) : ∀ (vs : List Arg) (rest : List Arg),
+    (∀ a ∈ vs, a.isNum = true) → countedOk h (some vs.length) (vs ++ rest) = countedOk h none rest
+  | [], rest, _ => counted_some0 h rest
+  | v :: vs, rest, hv => by
+    simp only [List.length_cons, List.cons_append, countedOk, hv v (by simp), Bool.true_and]
+    exact counted_nums h vs rest (fun a ha => hv a (by simp [ha]))
+
+theorem ctlInputs_nums {c : Core} : ∀ (l : List Val) (vs : List Arg), vrep1 (Val.isNumLike c) l = true →
+    ctlInputs c l = some vs → vs.length = l.length ∧ ∀ a ∈ vs, a.isNum = true
+  | [], vs, _, h => by simp only [ctlInputs_nil, Option.some.injEq] at h; subst h; simp
+  | v :: l, vs, hw, h => by
+    obtain ⟨a, r, h1, h2, rfl⟩ := ctlInputs_cons h
+    simp only [vrep1, Bool.and_eq_true] at hw
+    have := ctlInputs_nums l r hw.2 h2
+    refine ⟨by simp [this.1], ?_⟩
+    intro x hx
+    rcases List.mem_cons.mp hx with rfl | hx
+    · exact atomArg_numLike hw.1 h1
+    · exact this.2 x hx
+
+/-- a `setn` value becomes `n, v₁ … vₙ` -/
+theorem setnVal_ok {c : Core} {v : Val} {xs : List Arg} (hv : v.isSetnVal c = true)
+    (h : setnVal c v = some xs) :
+    ∃ (n : Nat) (vs : List Arg), xs = ai n :: vs ∧ vs.length = n ∧ ∀ a ∈ vs, a.isNum = true := by
+  by_cases hl : ∃ l, v = .list l
+  · obtain ⟨l, rfl⟩ := hl
+    simp only [setnVal, bind, Option.bind] at h
+    cases hm : l.mapM (atomArg c) with
+    | none => simp [hm] at h
+    | some vs =>
+      simp only [hm, pure, Option.some.injEq] at h
+      have := ctlInputs_nums l vs (by simpa [Val.isSetnVal] using hv) hm
+      exact ⟨l.length, vs, h.symm, this.1, this.2⟩
+  · have hnum : v.isNumLike c = true := by cases v <;> simp_all [Val.isSetnVal]
+    have hs : setnVal c v = (do let a ← atomArg c v; pure [ai 1, a]) := by
+      cases v <;> first | rfl | exact absurd ⟨_, rfl⟩ hl
+    rw [hs] at h
+    simp only [bind, Option.bind] at h
+    cases ha : atomArg c v with
+    | none => simp [ha] at h
+    | some a =>
+      simp only [ha, pure, Option.some.injEq] at h
+      refine ⟨1, [a], h.symm, rfl, ?_⟩
+      intro x hx; simp at hx; subst hx
+      exact atomArg_numLike hnum ha
+
+theorem setnArgs_ok (c : Core) (head : Val → Bool) (H : Arg → Bool)
+    (hh : ∀ v a, head v = true → atomArg c v = some a → H a = true) :
+    ∀ (args : List Val) (as : List Arg), wfSetn c head args = true →
+    setnArgs c args = some as → countedOk H none as = true
+  | [], as, _, h => by simp only [setnArgs, Option.some.injEq] at h; subst h; rfl
+  | [_], as, _, h => by simp only [setnArgs, Option.some.injEq] at h; subst h; rfl
+  | k :: v :: r, as, hw, h => by
+    simp only [wfSetn, Bool.and_eq_true] at hw
+    obtain ⟨⟨hk, hv⟩, hr⟩ := hw
+    simp only [setnArgs, bind, Option.bind] at h
+    cases hc : atomArg c k with
+    | none => simp [hc] at h
+    | some ctl =>
+      cases hx : setnVal c v with
+      | none => simp [hc, hx] at h
+      | some xs =>
+        cases hrest : setnArgs c r with
+        | none => simp [hc, hx, hrest] at h
+        | some rest =>
+          simp only [hc, hx, hrest, pure, Option.some.injEq] at h; subst h
+          obtain ⟨n, vs, rfl, hlen, hnums⟩ := setnVal_ok hv hx
+          have ih := setnArgs_ok c head H hh r rest hr hrest
+          simp only [List.cons_append, countedOk, ai, hh k ctl hk hc, Bool.true_and]
+          rw [show decide ((0 : Int) ≤ (n : Int)) = true by simp, Bool.true_and]
+          rw [show ((n : Int)).toNat = vs.length by simp [hlen]]
+          rw [counted_nums H vs rest hnums]
+          exact ih
+
+/-! ### indexed values of `/c_set` -/
+
+theorem indexed_ok : ∀ (vs : List Arg) (base : Int), (∀ a ∈ vs, a.isNum = true) →
+    rep2 Arg.isInt Arg.isNum (indexed base vs) = true
+  | [], _, _ => rfl
+  | v :: vs, base, hv => by
+    simp only [indexed, rep2, hv v (by simp), Bool.and_true, ai, Arg.isInt, Bool.true_and]
+    exact indexed_ok vs (base + 1) (fun a ha => hv a (by simp [ha]))
+
+theorem cpairs_ok (c : Core) (i : Int) : ∀ (l : List Val) (ps : List (Int × Arg)), wfCpairs c l = true →
+    cpairsPre c l = some ps →
+    rep2 Arg.isInt Arg.isNum (ps.flatMap fun (p : Int × Arg) => [ai (i + p.1), p.2]) = true
+  | [], ps, _, h => by simp only [cpairsPre, Option.some.injEq] at h; subst h; rfl
+  | [_], ps, _, h => by
+    cases ‹Val› <;> simp only [cpairsPre, Option.some.injEq] at h <;> subst h <;> rfl
+  | k :: v :: r, ps, hw, h => by
+    cases k <;> simp [wfCpairs] at hw
+    rename_i o
+    simp only [cpairsPre, bind, Option.bind] at h
+    cases ha : atomArg c v with
+    | none => simp [ha] at h
+    | some a =>
+      cases hrest : cpairsPre c r with
+      | none => simp [ha, hrest] at h
+      | some rest =>
+        simp only [ha, hrest, pure, Option.some.injEq] at h; subst h
+        simp only [List.flatMap_cons, List.cons_append, List.nil_append, rep2, ai, Arg.isInt,
+          atomArg_numLike hw.1 ha, Bool.true_and]
+        exact cpairs_ok c i r rest hw.2 hrest
+
+/-! ### interleaved partial lists of `/b_gen sine2/sine3` -/
+
+theorem rep1_of_all {P : Arg → Bool} : ∀ (as : List Arg), (∀ a ∈ as, P a = true) → rep1 P as = true
+  | [], _ => rfl
+  | a :: r, h => by
+    simp only [rep1, h a (by simp), Bool.true_and]
+    exact rep1_of_all r (fun x hx => h x (by simp [hx]))
+
+theorem rep2_of_all_even {P : Arg → Bool} : ∀ (as : List Arg), (∀ a ∈ as, P a = true) →
+    as.length % 2 = 0 → rep2 P P as = true
+  | [], _, _ => rfl
+  | [_], _, h => by simp at h
+  | a :: b :: r, h, hl => by
+    simp only [rep2, h a (by simp), h b (by simp), Bool.true_and]
+    exact rep2_of_all_even r (fun x hx => h x (by simp [hx])) (by simp at hl; omega)
+
+theorem rep3_of_all_mod3 {P : Arg → Bool} : ∀ (as : List Arg), (∀ a ∈ as, P a = true) →
+    as.length % 3 = 0 → rep3 P P P as = true
+  | [], _, _ => rfl
+  | [_], _, h => by simp at h
+  | [_, _], _, h => by simp at h
+  | a :: b :: d :: r, h, hl => by
+    simp only [rep3, h a (by simp), h b (by simp), h d (by simp), Bool.true_and]
+    exact rep3_of_all_mod3 r (fun x hx => h x (by simp [hx])) (by simp at hl; omega)
+
+theorem mem_lace {ls : List (List Arg)} {a : Arg} (h : a ∈ lace ls) : ∃ l ∈ ls, a ∈ l := by
+  cases ls with
+  | nil => simp [lace] at h
+  | cons l rest =>
+    cases l with
+    | nil => simp [lace] at h
+    | cons x xs =>
+      simp only [lace, List.mem_flatMap, List.mem_range, List.mem_filterMap] at h
+      obtain ⟨i, _, l', hl', he⟩ := h
+      exact ⟨l', hl', List.mem_of_getElem? he⟩
+
+theorem length_filterMap_get {L : List (List Arg)} {i : Nat} (h : ∀ x ∈ L, i < x.length) :
+    (L.filterMap (·[i]?)).length = L.length := by
+  induction L with
+  | nil => rfl
+  | cons x xs ih =>
+    have hx := h x (by simp)
+    simp only [List.filterMap_cons, List.getElem?_eq_getElem hx, List.length_cons]
+    rw [ih (fun y hy => h y (by simp [hy]))]
+
+theorem length_flatMap_const {α β} {l : List α} {f : α → List β} {k : Nat}
+    (h : ∀ x ∈ l, (f x).length = k) : (l.flatMap f).length = l.length * k := by
+  induction l with
+  | nil => simp
+  | cons x xs ih =>
+    simp only [List.flatMap_cons, List.length_append, List.length_cons, h x (by simp)]
+    rw [ih (fun y hy => h y (by simp [hy]))]
+    rw [Nat.add_mul]; omega
+
+theorem length_lace {ls : List (List Arg)} {n : Nat} (h : ∀ l ∈ ls, l.length = n) :
+    (lace ls).length = n * ls.length := by
+  cases ls with
+  | nil => simp [lace]
+  | cons l rest =>
+    have hl := h l (by simp)
+    cases l with
+    | nil => simp at hl; subst hl; simp [lace]
+    | cons x xs =>
+      simp only [lace]
+      rw [length_flatMap_const (k := (((x :: xs) :: rest).length))]
+      · simp [← hl]
+      · intro i hi
+        simp only [List.mem_range] at hi
+        exact length_filterMap_get (fun y hy => by rw [h y hy, ← hl]; exact hi)
+
+
+/-! ### shape of what the command helpers send -/
+
+theorem send_msg {c : Core} {cmd : String} {args : List Arg} {p : Packet} {m : Msg}
+    (hp : p ∈ (c.send cmd args).2.2) (hm : m ∈ p.msgs) : m = ⟨cmd, args⟩ := by
+  simp only [Core.send, List.mem_singleton] at hp
+  subst hp
+  simpa [Packet.msgs] using hm
+
+theorem nodeCmd_msg {c : Core} {h : Nat} {cmd : String} {args : Option (List Arg)} {p : Packet} {m : Msg}
+    (hp : p ∈ (c.nodeCmd h cmd args).2.2) (hm : m ∈ p.msgs) :
+    ∃ n a, args = some a ∧ m = ⟨cmd, ai n :: a⟩ := by
+  unfold Core.nodeCmd at hp
+  split at hp
+  · exact ⟨_, _, rfl, send_msg hp hm⟩
+  · simp [Core.skip] at hp
+
+theorem kindCmd_msg {c : Core} {h : Nat} {g : Bool} {cmd : String} {args : Option (List Arg)}
+    {p : Packet} {m : Msg} (hp : p ∈ (c.kindCmd h g cmd args).2.2) (hm : m ∈ p.msgs) :
+    ∃ n a, args = some a ∧ m = ⟨cmd, ai n :: a⟩ := by
+  unfold Core.kindCmd at hp
+  split at hp
+  · split at hp
+    · exact ⟨_, _, rfl, send_msg hp hm⟩
+    · simp [Core.exc] at hp
+  · simp [Core.skip] at hp
+
+theorem cbusCmd_msg {α} {c : Core} {h : Nat} {args : Option α} {f : Int → Int → α → String × List Arg}
+    {p : Packet} {m : Msg} (hp : p ∈ (c.cbusCmd h args f).2.2) (hm : m ∈ p.msgs) :
+    ∃ i ch a, args = some a ∧ m = ⟨(f i ch a).1, (f i ch a).2⟩ := by
+  unfold Core.cbusCmd at hp
+  split at hp
+  · split at hp
+    · simp [Core.exc] at hp
+    · split at hp
+      · exact ⟨_, _, _, rfl, send_msg hp hm⟩
+      · simp [Core.exc] at hp
+  · simp [Core.skip] at hp
+
+theorem bufCmd_msg {α} {c : Core} {h : Nat} {args : Option α} {f : Int → α → String × List Arg}
+    {p : Packet} {m : Msg} (hp : p ∈ (c.bufCmd h args f).2.2) (hm : m ∈ p.msgs) :
+    ∃ i a, args = some a ∧ m = ⟨(f i a).1, (f i a).2⟩ := by
+  unfold Core.bufCmd at hp
+  split at hp
+  · split at hp
+    · exact ⟨_, _, rfl, send_msg hp hm⟩
+    · simp [Core.exc] at hp
+  · simp [Core.skip] at hp
+
+/-- `synthArgs` of well-formed arguments is a grammatical pair list -/
+theorem synthArgs_ok {c : Core} {args : Val} {a : List Arg} (hw : wfSynthArgs c args = true)
+    (h : synthArgs c args = some a) : pairsOk none a = true := by
+  cases args <;> simp [wfSynthArgs] at hw
+  · simp only [synthArgs, Option.some.injEq] at h; subst h; rfl
+  · exact embedL_pairs c _ a hw (by simpa [synthArgs, oscArgList] using h)
+  · exact embedL_pairs c _ a hw (by simpa [synthArgs, oscArgList] using h)
+
+theorem actOk_arg {act : Int} (h : actOk act = true) : (ai act).isAddAction = true := by
+  simpa [actOk, Arg.isAddAction, actionIn, ai] using h
+
+theorem mapM_ctlInputs_nums {c : Core} : ∀ (lists : List (List Val)) (ls : List (List Arg)),
+    lists.all (vrep1 (Val.isNumLike c)) = true → lists.mapM (ctlInputs c) = some ls →
+    ls.length = lists.length ∧ ∀ l ∈ ls, ∀ a ∈ l, a.isNum = true
+  | [], ls, _, h => by simp at h; subst h; simp
+  | x :: xs, ls, hw, h => by
+    simp only [List.mapM_cons, bind, Option.bind] at h
+    cases h1 : ctlInputs c x with
+    | none => simp [h1] at h
+    | some a =>
+      cases h2 : xs.mapM (ctlInputs c) with
+      | none => simp [h1, h2] at h
+      | some r =>
+        simp only [h1, h2, pure, Option.some.injEq] at h; subst h
+        simp only [List.all_cons, Bool.and_eq_true] at hw
+        have ih := mapM_ctlInputs_nums xs r hw.2 h2
+        refine ⟨by simp [ih.1], ?_⟩
+        intro l hl
+        rcases List.mem_cons.mp hl with rfl | hl
+        · exact (ctlInputs_nums x l hw.1 h1).2
+        · exact ih.2 l hl
+
+theorem ai_isInt (i : Int) : (ai i).isInt = true := rfl
+
+theorem complTail_complArg (cm : Completion) (b : Int) : complTail [complArg cm b] = true := by
+  cases cm <;> rfl
+
+theorem boolArg_flag (b : Bool) : (boolArg b).isFlag = true := by cases b <;> rfl
+
+theorem releaseGate_num {t : Val} {g : Arg} (h : releaseGate t = some g) : g.isValAtom = true := by
+  cases t with
+  | none => simp only [releaseGate, Option.some.injEq] at h; subst h; rfl
+  | int i => simp only [releaseGate, Option.some.injEq] at h; subst h; split <;> rfl
+  | flt r => simp only [releaseGate, Option.some.injEq] at h; subst h; split <;> rfl
+  | _ => simp [releaseGate] at h
+
+
 end Sc3Verif.C17
